@@ -1007,6 +1007,8 @@ class Sched:
         self.n = len(thread_calls)
         self.plan = plan
         self.budget = budget
+        self.fair_after = budget // 2 if not os.environ.get('A5SIM_NO_FAIR') else budget + 1     # (the env switch exists to demonstrate what fairness is for)
+        self.fair_switches = 0
         self.locks = [_real_allocate_lock() for _ in range(self.n)]
         for l in self.locks:
             l.acquire()
@@ -1028,6 +1030,7 @@ class Sched:
         self.in_call = [None] * self.n           # function name currently executing
         self.cur_f = [(c[0]['f'] if c else '-') for c in thread_calls]   # current or next function per thread
         self.results = [[] for _ in range(self.n)]
+        self.values = [[] for _ in range(self.n)]     # the returned objects themselves, as the callers hold them
         self.aborted = None
         self.log_limit = log_limit
         self.h = hashlib.blake2b(digest_size=16)
@@ -1078,6 +1081,19 @@ class Sched:
             self._abort('harness: a5 code ran without the baton')
         if self.steps >= self.budget:
             self._abort('budget')
+        if self.steps >= self.fair_after and (self.steps - self.fair_after) % 97 == 0:
+            # Fairness fallback: a real scheduler is fair, the sampled plans are not (under `one(k)` thread B runs
+            # "to completion" even if it busy-waits for A).  Once half the step budget is gone every thread gets a
+            # turn every 97 steps; only a run that still does not finish is reported as not returning.
+            r = self.runnable()
+            if len(r) > 1:
+                nxt = [x for x in r if x > t]
+                target = nxt[0] if nxt else r[0]
+                if target != t:
+                    self.fair_switches += 1
+                    self._pos = pos
+                    self._transfer(t, target, self.seam.loc(code, pos))
+                    self.locks[t].acquire()
         if self.hot is not None:
             h = (code.co_filename, self.seam.line_of(code, pos)) in self.hot
             self.plan.hot_now = h or self.prev_hot[t]
@@ -1178,10 +1194,11 @@ class Sched:
                 args = [canon.dec(a) for a in call['a']]
                 self.in_call[tid] = call['f']
                 self.cur_f[tid] = call['f']
-                outcome, _ = apply_call(self.a5, call['f'], args)
+                outcome, val = apply_call(self.a5, call['f'], args)
                 self.in_call[tid] = None
                 kept = [canon.enc(a) for a in args] == call['a']
                 self.results[tid].append([outcome, kept])
+                self.values[tid].append(val)
                 self.h.update(('r%d:%s' % (tid, canon.key(outcome))).encode())
         except SimAbort:
             return
@@ -1283,13 +1300,21 @@ def run_threads_node(a5mod, seam, spec, hot=None, prepared=None):
     s.run()
     clock_reads = clock.reads
     post = post_seq = None
+    changed_later = []
     if s.aborted is None and spec.get('post', True):
         post, post_seq = post_quiescence(a5mod, spec['threads'])
+        # what the callers were handed must still be what they hold (no result buffer reused behind their back)
+        for t in range(len(s.values)):
+            for i, v in enumerate(s.values[t]):
+                if s.results[t][i][0][0] == 'ok' and canon.enc(v) != s.results[t][i][0][1]:
+                    changed_later.append([t, i, ['ok', canon.enc(v)]])
     return {
         'results': s.results,
         'post': post,
         'post_seq': post_seq,
         'killed': s.killed,
+        'changed_later': changed_later,
+        'fair_switches': s.fair_switches,
         'clock_reads': clock_reads,
         'clock_jumps': clock.jumps,
         'timeouts_fired': s.timeouts_fired,
@@ -1418,6 +1443,8 @@ def run_history_node(a5mod, seam, spec):
     clock.active = True
     recs = []
     owned = {}          # op index -> (args objects, result object)
+    caller_edited = set()
+    returned = {}       # op id -> canonical value at return time
     h = hashlib.blake2b(digest_size=16)
     counter = [0]
     inject = [None]     # (k, exc class) or None
@@ -1513,6 +1540,16 @@ def run_history_node(a5mod, seam, spec):
                 inject[0] = None
             post = [canon.enc(a) for a in args]
             owned[oid] = (args, val, fname)
+            if outcome[0] == 'ok':
+                returned[oid] = outcome[1]
+            # every result handed out earlier must still be what the caller holds (unless the caller edited it)
+            for rid, (_, rv, rf) in owned.items():
+                if rid != oid and rid in returned and rid not in caller_edited and rv is not None and not isinstance(rv, (int, float, str, tuple)):
+                    now = canon.enc(rv)
+                    if now != returned[rid]:
+                        rec['changed_later'] = {'id': rid, 'f': rf, 'was': returned[rid], 'now': now}
+                        returned[rid] = now
+                        break
             rec.update({'f': fname, 'pre': pre, 'outcome': outcome, 'post': post,
                         'steps': counter[0], 'landed': landed[0], 'loc': lastloc[0]})
             if recycled is not None:
@@ -1531,6 +1568,8 @@ def run_history_node(a5mod, seam, spec):
             applied = None
             if ref in owned and owned[ref][1] is not None:
                 applied = _mutate(owned[ref][1], op['how'], op.get('val', 7))
+                if applied:
+                    caller_edited.add(ref)
             rec.update({'ref': ref, 'applied': applied})
         elif kind == 'mutate_arg':
             ref = op['ref']
